@@ -33,6 +33,7 @@ var fixed = []core.Case{
 	{ID: "fix-gc-clean", NT: true, Ops: []string{"put req 80 80:aa", "put req 80 81:bb", "put req 40 40:01", "pyr 80 81:1", "pyr 40 -", "cap 2", "gcsel", "gcevict", "gcsel", "gcevict", "reopen"}},
 	{ID: "fix-gc-shared-chunk", NT: true, Ops: []string{"put req 80 80:aa", "put req 80 81:bb", "put req 80 c0:cc", "pyr 80 81:1", "cap 2", "gcsel", "gcevict", "reopen"}},
 	{ID: "fix-gc-unknown-file", NT: true, Ops: []string{"put req 80 80:aa", "put req 80 81:bb", "cap 1", "gcsel", "gcevict", "reopen"}},
+	{ID: "fix-failed-batch-direct-write", NT: true, Ops: []string{"put req 20 20:aa", "put req 20 c0:bb", "set pin 20 20,41", "reopen"}},
 	{ID: "fix-sync", NT: true, Ops: []string{"put up - 80:aa", "set sync - 80", "set sync - 80", "set pin 80 80", "reopen"}},
 	{ID: "fix-remove-root-entry", NT: true, Ops: []string{"put req 80 80:aa", "put req 80 81:bb", "set remove 80 81", "set remove 80 80", "reopen"}},
 }
@@ -144,7 +145,10 @@ func (o *oracle) Check(ctx *core.Ctx, ev *lsharness.Event) {
 		if ev.Result == "nogc" || ev.Err != "" {
 			return
 		}
-		target := ev.Capacity * 9 / 10
+		target := ev.GCTarget
+		if target != ev.GCCapacity*9/10 {
+			ctx.Fail("gc-target", "gcTarget() = %d for capacity %d", target, ev.GCCapacity)
+		}
 		if ev.GCDone && a.GCSize > target {
 			ctx.Fail("bounded-gcsize", "collection reported done but gcSize %d > target %d", a.GCSize, target)
 		}
@@ -153,14 +157,14 @@ func (o *oracle) Check(ctx *core.Ctx, ev *lsharness.Event) {
 		}
 		recycled := recycledEntries(b, a)
 		forcedZero := len(recycled) == 0 && a.GCSize == 0 && len(a.GC) > 0
-		if ev.GCDone && a.GCSum() > ev.Capacity {
+		if ev.GCDone && a.GCSum() > ev.GCCapacity {
 			switch {
 			case forcedZero:
-				ctx.Fail("bounded-sum-forced-zero", "collection recycled nothing, forced gcSize to 0 and reported done with ΣGCounter=%d > capacity %d", a.GCSum(), ev.Capacity)
-			case db < 0:
-				ctx.Fail("bounded-sum-undercount", "collection quiesced (done) with ΣGCounter=%d > capacity %d because gcSize (%d) undercounted Σ (%d) before the run", a.GCSum(), ev.Capacity, b.GCSize, b.GCSum())
+				ctx.Fail("bounded-sum-forced-zero", "collection recycled nothing, forced gcSize to 0 and reported done with ΣGCounter=%d > capacity %d", a.GCSum(), ev.GCCapacity)
+			case db < 0 || da < 0:
+				ctx.Fail("bounded-sum-undercount", "collection quiesced (done) with ΣGCounter=%d > capacity %d because gcSize undercounts Σ (before the run %d vs %d, after it %d vs %d)", a.GCSum(), ev.GCCapacity, b.GCSize, b.GCSum(), a.GCSize, a.GCSum())
 			default:
-				ctx.Fail("bounded-sum", "collection quiesced (done) with ΣGCounter=%d > capacity %d (gcSize=%d)", a.GCSum(), ev.Capacity, a.GCSize)
+				ctx.Fail("bounded-sum", "collection quiesced (done) with ΣGCounter=%d > capacity %d (gcSize=%d)", a.GCSum(), ev.GCCapacity, a.GCSize)
 			}
 		}
 		if da != db {
@@ -172,6 +176,9 @@ func (o *oracle) Check(ctx *core.Ctx, ev *lsharness.Event) {
 				n := uint64(1) // the root
 				seen := map[string]bool{}
 				for _, c := range ev.Pyramids[string(g.Address)] {
+					if seen[string(c.Addr)] {
+						faithful = false // a cid listed twice: not a pyramid chunkinfo can produce
+					}
 					if _, ok := b.DataOf(c.Addr); ok && !seen[string(c.Addr)] && b.PinOf(c.Addr) <= uint64(c.Num) {
 						n++
 					}
@@ -210,7 +217,7 @@ func (o *oracle) Check(ctx *core.Ctx, ev *lsharness.Event) {
 	case anyZeroCounter(b) || (ev.Kind == "set" && ev.Mode == "sync"):
 		ctx.Fail("inv-sync-zero-counter", "ModeSetSync writes gc entries with GCounter=0 but counts them in gcSize (and later ops mis-handle them): %s", desc)
 	case ev.Err != "":
-		ctx.Fail("inv-failed-op-direct-write", "a failed call kept its direct gcIndex.Put: %s", desc)
+		ctx.Fail("inv-failed-batch-keeps-direct-write", "a failed multi-address call dropped its batch but kept the direct gcIndex.Put of an earlier address: %s", desc)
 	case ev.Kind == "put" && ev.Mode == "uppin":
 		ctx.Fail("inv-uppin-discards-change", "ModePutUploadPin under a root context changes the root's gc entry but discards setPin's gcSizeChange: %s", desc)
 	case multi && root != nil:
